@@ -44,6 +44,11 @@ func propConfigs() map[string]*PropConfig {
 		Explain: "the real callRecover, pushDefer, popDefer, maybeRepanic and the defer machinery of reExecWithFlags (rundefer) are executed symbolically on function bodies made of harness statements; which calls panic / recover is symbolic"})
 	add(&PropConfig{ID: "C12", Prefix: "VH_C12_", Sets: []HarnessSet{hfiles("fast", fastLib, "fast/c19.go", "fast/c13.go", "fast/c07.go")},
 		Explain: "the real exec / reExecWithFlags / restore / pushDefer / popDefer are executed on programs aborted by a panic at every statement position (and inside a deferred call); afterwards the bookkeeping is compared with the top-level values and probe evaluations (defer + panic + recover) are run on the same Run"})
+	fp := "(*github.com/cosmos72/gomacro/fast."
+	add(&PropConfig{ID: "C27", Prefix: "VH_C27_", StrBytes: 16, Sets: []HarnessSet{hfiles("fast", fastLib, "fast/c27.go"), hfiles("go/etoken", "etoken/c27_fileset.go")},
+		Redirect: map[string]string{"(*github.com/cosmos72/gomacro/base.Globals).ReadMultiline": "vhModelReadMultiline", fp + "Comp).Parse": "vhModelParse",
+			fp + "Interp).Cmd": "vhModelCmd", fp + "Interp).RunExpr": "vhModelRunExpr", "(*github.com/cosmos72/gomacro/base.Globals).Print": "vhModelPrint"},
+		Explain: "the real Interp.ReadParseEvalPrint / Read / ParseEvalPrint / Parse / afterEval and Stringer.IncLine run on chunks whose comment prefix and code are symbolic byte strings; the reader, the parser entry (which records Globals.Line and the text it is given), command dispatch, execution and printing are replaced by models"})
 	xrp := "(*github.com/cosmos72/gomacro/xreflect.xtype)."
 	add(&PropConfig{ID: "C34", Prefix: "VH_C34_", Sets: []HarnessSet{hfiles("xreflect", "xreflect/lib_xreflect.go", "xreflect/c34_gen.go")},
 		Redirect: map[string]string{xrp + "NumMethod": "vhModelNumMethod", xrp + "Method": "vhModelMethod", xrp + "GetMethods": "vhModelGetMethods"},
